@@ -4,7 +4,7 @@ import re
 
 from .program import AnalysisError, Inconclusive, ClassInfo
 from .values import (Const, Sym, CRef, FRef, Bound, Obj, Tup, App, New,
-                     Raise, Coll)
+                     Raise, Coll, walk)
 from .interp import Interp
 from .formulas import FormulaHooks, LANGS
 from .templates import make_hole
@@ -92,20 +92,30 @@ def templates(prog, lang):
         if name == 'Bool':
             for b in (True, False):
                 v = _print(prog, ci, [Const(b)], f)
-                out.append((name, b, merge(flatten(v) or [('?', repr(v))]),
-                            f))
+                out.append((name, b, _pieces(v, ci.short(), f), f))
             continue
         if name == 'AtomicProposition':
             v = _print(prog, ci, [Sym('apname', ('b', 'str'), ('apname',))],
                        f)
-            out.append((name, 0, merge(flatten(v) or [('?', repr(v))]), f))
+            out.append((name, 0, _pieces(v, ci.short(), f), f))
             continue
         for n in ARITY.get(name, [1, 2]):
             holes = [make_hole(prog, i, lang) for i in range(n)]
             v = _print(prog, ci, holes, f)
-            fl = flatten(v)
-            out.append((name, n, merge(fl) if fl is not None
-                        else [('?', repr(v))], f))
+            out.append((name, n, _pieces(v, ci.short(), f), f))
+    return out
+
+
+def truncations(v):
+    """slices of the printed form of an operand inside a printed value:
+    [(operand index, text of the slice)]"""
+    out = []
+    for x in walk(v):
+        if isinstance(x, App) and x.op == 'item' and len(x.args) == 2 and \
+                isinstance(x.args[1], App) and x.args[1].op == 'slice':
+            for y in walk(x.args[0]):
+                if isinstance(y, Sym) and y.meta and y.meta[0] == 'hole':
+                    out.append((y.meta[1], repr(x.args[1])))
     return out
 
 
@@ -116,10 +126,31 @@ def _print(prog, ci, args, f):
     res = I.call_function(FRef(f), [New(ci, args)], [], path, f.node)
     res = [(p, v) for (p, v) in res if not isinstance(v, Raise)]
     if len(res) != 1:
+        # a printer that decides by looking at its operands: if one of its
+        # outcomes cuts characters off an operand's printed form, that
+        # outcome is the template reported
+        for (p, v) in res:
+            v = I.snapshot_deep(v, p)
+            if truncations(v):
+                return v
         raise Inconclusive('printer', '%d paths printing %s' % (len(res),
                                                                 ci.short()),
                            f.where())
-    return res[0][1]
+    return I.snapshot_deep(res[0][1], res[0][0])
+
+
+def _pieces(v, what, f):
+    """template pieces of a printed value; an operand whose printed form is
+    cut gives a ('truncated', i, how) piece; anything else that is not
+    understood is no verdict"""
+    fl = flatten(v)
+    if fl is not None:
+        return merge(fl)
+    tr = truncations(v)
+    if tr:
+        return [('truncated', tr[0][0], tr[0][1])]
+    raise Inconclusive('printer', 'printed form of %s not understood: %s' % (
+        what, repr(v)[:160]), f.where())
 
 
 DELIMS = ' ()'
@@ -130,6 +161,12 @@ def delimiter_problems(pieces):
     that token boundaries in the printed text are those of the template"""
     probs = []
     for i, p in enumerate(pieces):
+        if isinstance(p, tuple) and p[0] == 'truncated':
+            probs.append('the printed form of operand %d is cut (%s): a '
+                         'nested operator loses its delimiters, so different '
+                         'trees are printed alike and the text parses back '
+                         'to another tree' % (p[1], p[2]))
+            continue
         if isinstance(p, tuple):
             before = pieces[i - 1] if i > 0 else None
             after = pieces[i + 1] if i + 1 < len(pieces) else None
@@ -215,6 +252,9 @@ def printer_grammar(tmpls, reserved=None, accepts=None):
                               'Bool:%s' % b))
                 lits.update(toks)
             continue
+        if any(isinstance(q, tuple) and q[0] == 'truncated'
+               for pieces in d.values() for q in pieces):
+            continue        # reported by delimiter_problems
         if set(d) == {2, 3}:
             p2, p3 = d[2], d[3]
             t2 = _toks(p2)
